@@ -128,3 +128,15 @@ _S["ImportanceNestedSampler"].attrs.update({
     "max_iteration": "Real",       # an int or np.inf
     "finalised": "Bool",
 })
+
+_S["ImportanceNestedSampler"].attrs.update({
+    "live_points_unit": INS_ARR,      # (a property in the code: the live
+                                      # rows of the ordered store)
+    "n_update": "Opt(Int)",
+    "threshold_method": "Str",
+    "threshold_kwargs": "EmptyDict",
+    "checkpointing": "Bool",
+    "plotting_frequency": "Int",
+    "importance": "Any",
+    "stopping_criterion": "Any",
+})
